@@ -131,9 +131,9 @@ macro_rules! c18_queue {
         }
     };
 }
-c18_queue!(c18_queue_ops2, quick, 6, 2);
-c18_queue!(c18_queue_ops3, thorough, 7, 3);
-c18_queue!(c18_queue_ops4, thorough, 8, 4);
+c18_queue!(c18_queue_ops2, probe, 6, 2);
+c18_queue!(c18_queue_ops3, probe, 7, 3);
+c18_queue!(c18_queue_ops4, probe, 8, 4);
 
 /// Executor with W workers (no tokio): N tasks with symbolic priority class / stealable flag go
 /// through the real `submit`; then a concrete schedule skeleton of worker steps (instance), then a
@@ -206,11 +206,11 @@ macro_rules! c18_reach {
         }
     };
 }
-c18_reach!(c18_reach_w1_n2_bal, quick, 6, 1, 2, [(0u8, 0usize)]);
-c18_reach!(c18_reach_w1_n3_bal, quick, 6, 1, 3, [(0u8, 0usize)]);
-c18_reach!(c18_reach_w2_n3_bal_steal, quick, 6, 2, 3, [(0u8, 0usize), (1, 1), (1, 1)]);
-c18_reach!(c18_reach_w2_n4_mix, thorough, 7, 2, 4, [(0u8, 0usize), (1, 1), (0, 1), (1, 0)]);
-c18_reach!(c18_reach_w3_n4_mix, thorough, 7, 3, 4, [(0u8, 0usize), (0, 1), (1, 2), (1, 2)]);
+c18_reach!(c18_reach_w1_n2_bal, probe, 6, 1, 2, [(0u8, 0usize)]);
+c18_reach!(c18_reach_w1_n3_bal, probe, 6, 1, 3, [(0u8, 0usize)]);
+c18_reach!(c18_reach_w2_n3_bal_steal, probe, 6, 2, 3, [(0u8, 0usize), (1, 1), (1, 1)]);
+c18_reach!(c18_reach_w2_n4_mix, probe, 7, 2, 4, [(0u8, 0usize), (1, 1), (0, 1), (1, 0)]);
+c18_reach!(c18_reach_w3_n4_mix, probe, 7, 3, 4, [(0u8, 0usize), (0, 1), (1, 2), (1, 2)]);
 
 /// One queue, concrete operation script (instance), symbolic task attributes.
 /// Script codes: 0 = push_local(new task), 1 = pop_local, 2 = steal, 3 = balance.
@@ -279,16 +279,16 @@ macro_rules! c18_qscript {
         }
     };
 }
-c18_qscript!(c18_q_push2_steal_pop, quick, 6, 2, [0u8, 4, 2, 1]);
-c18_qscript!(c18_q_push2_bal_steal, quick, 6, 2, [4u8, 0, 3, 2]);
-c18_qscript!(c18_q_push3_full_bal, quick, 6, 2, [0u8, 0, 4, 3, 1]);
-c18_qscript!(c18_q_push3_bal_steal2, thorough, 7, 3, [0u8, 4, 0, 3, 2, 2, 1]);
+c18_qscript!(c18_q_push2_steal_pop, probe, 6, 2, [0u8, 4, 2, 1]);
+c18_qscript!(c18_q_push2_bal_steal, probe, 6, 2, [4u8, 0, 3, 2]);
+c18_qscript!(c18_q_push3_full_bal, probe, 6, 2, [0u8, 0, 4, 3, 1]);
+c18_qscript!(c18_q_push3_bal_steal2, probe, 7, 3, [0u8, 4, 0, 3, 2, 2, 1]);
 
 // ---- probes (cost calibration)
 zv_harness! {
     name: c18_probe_queue_push_pop,
     prop: "C18",
-    tier: thorough,
+    tier: probe,
     unwind: 4,
     stubs: [alloc::fmt::format => crate::common::stubs::fmt_format],
     targets: "WorkStealingQueue::{push_local, pop_local}",
